@@ -37,7 +37,7 @@ func c14Gen(t *rapid.T) c14Case {
 	c := c14Case{Via: rapid.SampledFrom([]string{"runcommand", "runcommand", "intotorun"}).Draw(t, "via"),
 		WorkDir: rapid.SampledFrom([]string{"", "", "sub"}).Draw(t, "workdir"), DSSE: rapid.Bool().Draw(t, "dsse")}
 	if rapid.IntRange(0, 9).Draw(t, "broken") == 0 {
-		c.Broken = rapid.SampledFrom([]string{"missing-executable", "empty-argv", "not-executable", "directory"}).Draw(t, "brokenkind")
+		c.Broken = rapid.SampledFrom([]string{"missing-executable", "empty-argv", "not-executable", "directory", "missing-rundir", "rundir-is-file"}).Draw(t, "brokenkind")
 		return c
 	}
 	n := rapid.IntRange(0, 5).Draw(t, "nops")
@@ -184,10 +184,20 @@ func c14Run(c c14Case, r *hx.Rec) error {
 		args = []string{p}
 	case "directory":
 		args = []string{dir}
+	case "missing-rundir", "rundir-is-file":
+		// a fine command, but the directory to run it in does not exist / is a file
+		args = []string{emit, "o:10", "x:0"}
 	}
 	runDir := ""
 	if c.WorkDir != "" {
 		runDir = filepath.Join(dir, c.WorkDir)
+	}
+	switch c.Broken {
+	case "missing-rundir":
+		runDir = filepath.Join(dir, "no", "such", "dir")
+	case "rundir-is-file":
+		runDir = filepath.Join(dir, "plain-file")
+		_ = os.WriteFile(runDir, []byte("x"), 0o644)
 	}
 	req := map[string]any{"mode": c.Via, "args": args, "run_dir": runDir, "dsse": c.DSSE, "norm": c.Norm}
 	rb, _ := json.Marshal(req)
